@@ -570,6 +570,20 @@ func (e *Env) evalCall(c *ast.CallExpr) Val {
 			}
 			return Val{T: setType(tyString), L: []Term{t}}
 		}
+	case "ngo", "ncalls":
+		lit, ok := arg(0).(*ast.BasicLit)
+		if !ok {
+			e.fail("%s needs a string literal", name)
+		}
+		lbl, _ := strconv.Unquote(lit.Value)
+		pfx := "go:"
+		if name == "ncalls" {
+			pfx = "rcall:"
+		}
+		if t, ok := e.st.ghostInt[pfx+lbl]; ok {
+			return intVal(t)
+		}
+		return intVal("0")
 	case "ntrue", "nerr":
 		// ntrue("callee label") / nerr("callee label"): calls (in this iteration/path) of a
 		// function that returned true / a non-nil error
